@@ -334,6 +334,9 @@ func genWrap(seed uint64, faulty bool) *Scenario {
 			if faulty && (k == "set-static" || k == "set-watch") && g.pct(20) {
 				op.Str = "invalid" // a value the config's Verify rejects
 			}
+			if op.Str == "" && k == "set-static" && g.pct(12) {
+				op.Str = "unset" // a source that sets nothing at all: whatever the slot held is cleared
+			}
 			c.Ops = append(c.Ops, op)
 		case g.pct(15):
 			c.Ops = append(c.Ops, Op{K: "sleep", D: int64(g.in(1, 300)) * 1e6})
@@ -348,6 +351,9 @@ func genWrap(seed uint64, faulty bool) *Scenario {
 		}
 		if last := &c.Ops[len(c.Ops)-1]; faulty && (last.K == "breport" || last.K == "report") && g.pct(15) {
 			last.Str = "invalid"
+		}
+		if last := &c.Ops[len(c.Ops)-1]; last.Str == "" && (last.K == "breport" || last.K == "report") && g.pct(10) {
+			last.Str = "unset" // an update in which no field is set: the slot's earlier value is cleared
 		}
 	}
 	if w.Kind != "blank-only" {
@@ -413,7 +419,18 @@ type wInner struct {
 	both    bool
 	failVal bool
 	invalid bool // the value is one Verify rejects
+	unset   bool // the value sets nothing at all
 	vals    int
+}
+
+// unsetValue is a value of the requested type in which no field is set (the
+// struct or a pointer to it, by the parity of the id, as innerValue does).
+func unsetValue(t *dials.Type, id uint64) reflect.Value {
+	p := reflect.New(t.Type())
+	if id%2 == 1 {
+		return p
+	}
+	return p.Elem()
 }
 
 func (s *wInner) Value(_ context.Context, t *dials.Type) (reflect.Value, error) {
@@ -424,6 +441,9 @@ func (s *wInner) Value(_ context.Context, t *dials.Type) (reflect.Value, error) 
 	s.vals++
 	if s.invalid {
 		return spoil(innerValue(t, s.id, s.own, s.both)), nil
+	}
+	if s.unset {
+		return unsetValue(t, s.id), nil
 	}
 	return innerValue(t, s.id, s.own, s.both), nil
 }
@@ -864,6 +884,19 @@ func (r *wrapRun) wrapped(c *ClientSpec, blank *sourcewrap.Blank, inner *wInnerW
 			panic(err)
 		}
 	}
+	// mirrorUnset: the unwrapped twin's source reports a value that sets nothing
+	mirrorUnset := func(id uint64, blocking bool) {
+		v := unsetValue(nat.typ, id)
+		var err error
+		if blocking {
+			err = nat.wa.BlockingReportNewValue(r.ctx, v)
+		} else {
+			err = nat.wa.ReportNewValue(r.ctx, v)
+		}
+		if err != nil {
+			panic(err)
+		}
+	}
 	var blankInner *wInner
 	// callCtx: SetSource is often called with a context of its own that ends
 	// as soon as the call has returned (a per-request timeout)
@@ -910,6 +943,26 @@ func (r *wrapRun) wrapped(c *ClientSpec, blank *sourcewrap.Blank, inner *wInnerW
 				r.probes["rejected-update-through-wrapper"]++
 				continue
 			}
+			if op.Str == "unset" && op.K != "report-both" {
+				// an update that sets nothing replaces the slot's value like any
+				// other: the leaves it used to set fall back to the lower layers
+				var err error
+				if op.K == "breport" {
+					err = inner.wa.BlockingReportNewValue(r.ctx, unsetValue(inner.typ, id))
+				} else {
+					err = inner.wa.ReportNewValue(r.ctx, unsetValue(inner.typ, id))
+				}
+				r.probes["all-unset-update-through-wrapper"]++
+				if err != nil {
+					r.fail("C20.update", "report of an all-unset value through the wrapper failed: %v", err)
+					continue
+				}
+				mirrorUnset(id, op.K == "breport")
+				if got := r.W.View().Stamp; op.K == "breport" && got != 0 {
+					r.fail("C20.update", "blocking report of an all-unset value through the wrapper returned nil but the view still holds the slot's earlier value (stamp %d)", got)
+				}
+				continue
+			}
 			var err error
 			if op.K == "breport" {
 				err = inner.wa.BlockingReportNewValue(r.ctx, v)
@@ -940,7 +993,7 @@ func (r *wrapRun) wrapped(c *ClientSpec, blank *sourcewrap.Blank, inner *wInnerW
 			}
 			inner.wa.ReportError(r.ctx, fmt.Errorf("%s", op.Str))
 		case "set-static", "set-fail":
-			in := &wInner{id: id, own: "Stamp", failVal: op.K == "set-fail", invalid: op.Str == "invalid"}
+			in := &wInner{id: id, own: "Stamp", failVal: op.K == "set-fail", invalid: op.Str == "invalid", unset: op.Str == "unset" && op.K == "set-static"}
 			var src dials.Source = in
 			if (r.sc.Wrap.Kind == "blank-twatch" || len(names) > 0) && r.sc.Wrap.Kind != "blank-inside-t" {
 				src = sourcewrap.NewTransformingSource(in, mg...)
@@ -978,6 +1031,14 @@ func (r *wrapRun) wrapped(c *ClientSpec, blank *sourcewrap.Blank, inner *wInnerW
 				}
 				r.state = "static"
 				blankInner = in
+				if in.unset {
+					r.probes["setsource-of-a-source-that-sets-nothing"]++
+					mirrorUnset(id, true)
+					if got := r.W.View().Stamp; got != 0 {
+						r.fail("C20.blank", "SetSource of a source that sets nothing returned nil but the view still holds the previous source's value (stamp %d)", got)
+					}
+					continue
+				}
 				mirror(id, true)
 				if got := r.W.View().Stamp; got != id {
 					r.fail("C20.blank", "SetSource returned nil but the view holds stamp %d, not %d", got, id)
